@@ -94,6 +94,9 @@ def coq_expr(e):
 
 
 def coq_case(c):
+    if c.get("lmodel"):
+        from harness.props import c01_full as F
+        return f"(CL {F.coq_lexpr(c['e'])})"
     if c.get("full"):
         from harness.props import c01_full as F
         return f"(CF {F.coq_expr(c['e'])})"
@@ -271,6 +274,16 @@ def _cases(tier, rng):
         for kind, e in rng.sample(hp, min(30, len(hp))):
             yield {"kind": "importer:" + kind, "full": True, "via": "importer", "e": e, "opts": [False, True, True],
                    "lisp": F.to_lisp(e)}
+    # the loop fragment (simulation theorem of C01L): dedicated programs + every full program that fits
+    lps = [("loop", e) for e in F.loop_programs(rng, 60 if tier == "quick" else 1500)]
+    lps += [("mech:" + k, e) for k, e in F.hazard_programs() if F.in_l_fragment(e)]
+    for kind, e in lps:
+        key = "L" + repr(e)
+        if key in seen:
+            continue
+        seen.add(key)
+        yield {"kind": "loopfrag:" + kind, "full": True, "lmodel": True, "e": e, "opts": list(rng.choice(OPTS)),
+               "lisp": F.to_lisp(e)}
     n = 400 if tier == "quick" else 8000
     for _ in range(n):
         e = F.random_program(rng)
